@@ -4,7 +4,6 @@ import (
 	"fmt"
 	"strings"
 
-
 	"tdxlint/internal/flow"
 	"tdxlint/internal/load"
 	"tdxlint/internal/pat"
